@@ -58,6 +58,7 @@ FreshState ==
    eidx   |-> 1,
    hdef   |-> FALSE,  \* the script has reset the error handlers to the library's defaults (set_handler(nullptr))
    clk    |-> 0,      \* logical time: counts requests and markers of the execution
+   purged |-> 0,      \* time of the last shrink_to_fit / move (what next_capacity() was before is history then)
    taint  |-> {},     \* times of the failed stack requests that changed the stack's state (moved on to the next block)
    snap   |-> {},     \* upstream blocks that were outstanding when the previous API call returned
    over   |-> FALSE,  \* execution ended abnormally
@@ -217,7 +218,7 @@ OnAlloc(e) ==
                \* a request that failed AFTER the stack had moved on to its next (cached) block is part of the history
                \* although it is not in slog: replay expectations across it would compare different sequences
                !.clk = @ + 1,
-               !.taint = IF o.fam = "stack" /\ ~ok /\ e.cap1 # e.cap0 THEN @ \cup {st.clk + 1} ELSE @,
+               !.taint = IF o.fam = "stack" /\ ~ok /\ (e.cap1 # e.cap0 \/ e.mv) THEN @ \cup {st.clk + 1} ELSE @,
                !.expect = IF ok /\ sameReq THEN @ ELSE <<>>,
                !.eidx = IF ok /\ sameReq THEN @ + 1 ELSE 1]
   IN Result(nst,
@@ -284,7 +285,7 @@ OnAlloc(e) ==
        \* a request that failed without obtaining a block consumed nothing: the figures stay as they were
        \* (a memory_stack that moved on to a cached block before it failed, and a collection that handed the rest
        \* of its block to the bucket before its source refused, did consume something: cap1 # cap0 there)
-       \cup Chk(~(~ok /\ e.ups = e.upf /\ o.fam \in {"pool", "coll", "stack"} /\ e.cap1 = e.cap0) \/ e.ncap1 = e.ncap0,
+       \cup Chk(~(~ok /\ e.ups = e.upf /\ o.fam \in {"pool", "coll", "stack"} /\ e.cap1 = e.cap0 /\ ~e.mv) \/ e.ncap1 = e.ncap0,
                 "C18", "FailedRequestKeepsNextCapacity", <<o.fam, o.srck, e.r, e.ncap0, e.ncap1>>)
        \cup Chk(~(~ok /\ e.ups = e.upf /\ o.fam = "pool") \/ e.cap1 = e.cap0,
                 "C18", "FailedRequestKeepsCapacity", <<o.fam, o.srck, e.r, e.cap0, e.cap1>>)
@@ -329,8 +330,8 @@ OnFree(e) ==
 (* memory_stack: markers *)
 OnMark(e) ==
   LET o == Obj(e.o)
-  IN Result([st EXCEPT !.marks = IF e.m + 1 <= Len(@) THEN [@ EXCEPT ![e.m + 1] = [wm |-> e.wm, cap |-> e.cap, blk |-> o.curblk, clk |-> st.clk + 1]]
-                                  ELSE Append(@, [wm |-> e.wm, cap |-> e.cap, blk |-> o.curblk, clk |-> st.clk + 1]),
+  IN Result([st EXCEPT !.marks = IF e.m + 1 <= Len(@) THEN [@ EXCEPT ![e.m + 1] = [wm |-> e.wm, cap |-> e.cap, ncap |-> e.ncap, blk |-> o.curblk, clk |-> st.clk + 1]]
+                                  ELSE Append(@, [wm |-> e.wm, cap |-> e.cap, ncap |-> e.ncap, blk |-> o.curblk, clk |-> st.clk + 1]),
                        !.clk = @ + 1, !.pend = <<>>, !.inj = 0],
             NoStrayReports("mark") \cup NoLeakReport("mark"))
 
@@ -349,6 +350,9 @@ OnUnwind(e) ==
        Chk(e.r = "ok", "C06", "UnwindNeverThrows", <<e.r>>)
        \cup Chk(e.nbad = 0, "C01", "ContentIntactUntilUnwound", <<e.bad>>)
        \cup Chk(e.cap = mk.cap, "C06", "UnwindRestoresCapacity", <<e.m, e.cap, mk.cap>>)
+       \* ... and what the next block will bring: the blocks taken since the marker wait in the cache, the first of them
+       \* is the block that was next when the marker was taken (unless the cache was purged or the stack moved since)
+       \cup Chk(mk.clk <= st.purged \/ e.ncap = mk.ncap, "C06", "UnwindRestoresNextCapacity", <<e.m, e.ncap, mk.ncap>>)
        \cup Chk(e.ufs = 0 /\ e.ups = 0, "C06", "UnwoundBlocksCached", <<e.ufs, e.ups>>)
        \cup NoStrayReports("unwind") \cup NoLeakReport("unwind"))
 
@@ -372,7 +376,8 @@ OnCmp(e) ==
 OnShrink(e) ==
   LET o == Obj(e.o)
       mine == LiveBlocksOf(st, o.src)
-  IN Result([st EXCEPT !.expect = <<>>, !.eidx = 1, !.pend = <<>>, !.inj = 0, !.objs[e.o + 1].cach = <<>>],
+  IN Result([st EXCEPT !.expect = <<>>, !.eidx = 1, !.pend = <<>>, !.inj = 0, !.objs[e.o + 1].cach = <<>>,
+                       !.clk = @ + 1, !.purged = st.clk + 1],
        Chk(\A i \in 1..Len(o.cach) : ~Blk(o.cach[i]).live, "C05", "ShrinkEmptiesCache", <<"arena", o.cach>>) \cup
        Chk(~(o.fam = "stack" /\ o.curblk >= 0) \/ \A i \in mine : i <= o.curblk + 1, "C05", "ShrinkEmptiesCache", <<o.curblk, mine>>)
        \cup NoStrayReports("shrink") \cup NoLeakReport("shrink"))
